@@ -516,6 +516,32 @@ def gen(rng, tier):
         out.insert(min(len(out), (i + 1) * step), c)
     # several workers with rejected trees at random positions (the per-tree error must stay per tree)
     parallel_cases(out, rng, g, {"quick": 6, "thorough": 60, "search": 40}[tier], {"quick": 120, "thorough": 300, "search": 400}[tier])
+    # thousands of COPIES of one 100..200-tip tree through one call with 8 / 16 workers: every record must be the record
+    # of the first copy (which is judged: 0 / n-3 / 0, identical)
+    reps = {"quick": [(100, 2500, 8)], "thorough": [(150, 4000, 8), (200, 4000, 16), (120, 6000, 16)],
+            "search": [(150, 4000, 8), (120, 4000, 16)]}[tier]
+    rp = []
+    for (n, k, cpus) in reps:
+        big = unrooted(g, rng, n, maxdeg=3)
+        for op in (("compare",) if tier == "quick" else ("compare", "weighted")):
+            c = {"op": Sym(op), "t1": T(big), "t2s": [T(shuffle_children(reroot_at(big, rng), rng))], "tips": False, "ident": False,
+                 "rep": k, "cpus": cpus}
+            rp.append({"sx": sx(c), "meta": {"kind": "repeat", "op": op, "tips": False, "ident": False, "swapped": False,
+                                             "ntips": n, "stream": k, "cpus": cpus}})
+    for i, c in enumerate(rp):
+        out.insert(min(len(out), 7 + 211 * i), c)
+    # float sums that depend on the order: lengths 0.1, 0.2, 0.3 ... (the exact binary64 values), the same tree with another
+    # child order and another root: every difference is exactly 0, the trees are identical with and without the shortcut
+    for _ in range({"quick": 6, "thorough": 40, "search": 10}[tier]):
+        n = rng.randint(5, 12)
+        ft = unrooted(g, rng, n, maxdeg=4)
+        for nd in preorder(ft):
+            for i, sl in enumerate(nd["slots"]):
+                if sl is not None:
+                    e = dict(sl[0]); e["len"] = Fraction(rng.choice([0.1, 0.2, 0.3, 0.7, 1.1, 1e-3, 123.456, 0.30000000000000004]))
+                    nd["slots"][i] = (e, sl[1])
+        emit(out, "float-order", ft, shuffle_children(reroot_at(ft, rng), rng), rng, ops=("weighted", "compare"),
+             flags=[(False, True), (True, True), (rng.random() < 0.5, False)], both_orders=False)
     # hash extremes: the split with hash code 0, and tip names colliding in the index
     z = zero4_trees(g)
     for i in (0, 1, 3):
